@@ -254,9 +254,9 @@ def read_csv(file_name, sep="\t", index_col=False, nrows=None, usecols=None, chu
         df = df[[c for c in df._c if c in usecols]]
     df = df.copy().reset_index(drop=True)
     if nrows is not None:
-        return df.iloc[:int(nrows)]
+        return _infer_text_dtypes(df.iloc[:int(nrows)])
     if chunksize is None:
-        return df
+        return _infer_text_dtypes(df)
     cs = int(chunksize)
     if cs < 1:
         raise ValueError("'chunksize' must be an integer >=1")
@@ -265,8 +265,26 @@ def read_csv(file_name, sep="\t", index_col=False, nrows=None, usecols=None, chu
         if len(df) == 0:
             yield df.iloc[0:0]  # pandas yields one empty chunk for a header-only file
         for pos in range(0, len(df), cs):
-            yield df.iloc[pos:pos + cs]
+            yield _infer_text_dtypes(df.iloc[pos:pos + cs])
     return gen()
+
+
+def _infer_text_dtypes(df):
+    """pandas infers the dtype of a text column from the rows it parses - per CHUNK when chunksize is
+    given: a numeric column comes back as float64 (its values print as 500.0) as soon as one token of
+    the chunk has a decimal point, else as int64 (500). Tracked only for cells that carry the rendering
+    flag `txt` (see core.SNum)."""
+    from .core import SNum, s_or
+    out = None
+    for c, cells in df._c.items():
+        flags = [x.txt for x in cells if isinstance(x, SNum) and x.txt is not None]
+        if not flags or len(flags) != len(cells):
+            continue
+        isfloat = s_or(*flags)
+        if out is None:
+            out = df.copy()
+        out._c[c] = [SNum(x.z, x.rng, isfloat) for x in cells]
+    return df if out is None else out
 
 
 def _df_to_csv(self, path, sep="\t", index=False, mode="w", header=True, **kw):
